@@ -293,7 +293,8 @@ def handleClientKeyExchange (C : Crypto) (L : Loc) (e : Ep) (body : Bytes) : R :
       | some k => ok { e with ctx := { c0 with keys := some k },
                               evs := .keys L.pub pk (c0.clientRandom.getD []) (c0.serverRandom.getD []) c0.ems c0.transcript k :: e.evs }
 
-/-- publishing `Connected`: state, then the two atomics, then `local_secret = None` -/
+/-- publishing `Connected`: `write_epoch`, `write_seq`, then the state (sequentially one step here; the interleaving with
+concurrent senders is `DtlsRecord.PSys`), then `local_secret = None` -/
 def connect (e : Ep) (k : Keys) (verifiedOver : Bytes) (body : Bytes) : Ep :=
   { e with conn := .connected, connKeys := some k, connSrtp := e.ctx.srtp,
            evs := .finished k verifiedOver body :: e.evs,
